@@ -320,7 +320,7 @@ _derived = {}
 
 def derived(src, unit, edits):
     subs = [e for e in edits if str(e[0]) == 'sub']
-    key = dumps([src, unit, [[s[2], s[3]] for s in subs]])
+    key = dumps([src, unit, [[s[1], s[2], s[3]] for s in subs]])
     if key not in _derived:
         if len(_derived) > 64:
             _derived.clear()
@@ -340,6 +340,10 @@ def _derived_uncached(src, unit, edits):
         if subs and any(isinstance(n, ir.Conditional) and n.inline for n in preorder(w.body)):
             # an inline IF and its body statement share one Source *object*: invalidating either flags both (not modelled)
             raise Unsupported('substitution with inline conditionals')
+        if subs and str(subs[0][1]) == 'true' and any(isinstance(n, ScopedNode) for n in preorder(w.body)):
+            # rebuild_scopes clones the Source before the children are visited; the in-place invalidation then hits the
+            # original object only (Source aliasing, not modelled)
+            raise Unsupported('substitution with rebuild_scopes on scoped nodes')
         if subs:
             w2 = world_for(src, unit)
             w2.export(w2.body)
@@ -976,7 +980,7 @@ class C03(Prop):
 
     # ------------------------------------------------------------ generation
     def gen(self, rng, tier):
-        n_gen = {'quick': 12, 'thorough': 150, 'search': 60}[tier]
+        n_gen = {'quick': 12, 'thorough': 90, 'search': 40}[tier]
         n_files = {'quick': 3, 'thorough': 10 ** 6, 'search': 40}[tier]
         for c in range(n_gen):
             spice = c % 2 == 1
